@@ -34,7 +34,8 @@ def scenario(args):
         buf = bytearray(raw) if btype == "bytearray" else raw
         nak = rng.random() < 0.3
         api = "write" if rng.random() < 0.15 else "send"
-        ev.append(lp.call(api, buf, ask_no_ack=nak))
+        pre = "sleep" if (tx_lite and rng.random() < 0.2) else None     # rf24_lite's write() wakes the radio up (in TX mode) by itself
+        ev.append(lp.call(api, buf, ask_no_ack=nak, pre=pre))
         ev.append(lp.drain())
     # list sends (valid lengths for the mode)
     for _ in range(2):
